@@ -217,6 +217,15 @@ def obligations(tier, seed):
                 for lo in range(0, size + 1, 6):
                     obs.append({"name": "%s/%s#%d-isoopen/%d" % (kind, sn, i, lo), "fn": "ob_edit",
                                 "P": dict(pp, kind=kind, alo=lo, ahi=lo + 6, xs=[ns - 1]), "timeout": T})
+        # include_parents slice of the bundled list schema whose list item lost its required first child (SLICES_LATE)
+        for (sn, i) in [("list", 3)]:
+            pp = {"schema": sn, "doc": i}
+            size = common.templates.doc(sn, i).content.size
+            late = common.templates.nslices(sn) + 1
+            for kind in ("replace", "replace_range"):
+                for lo in range(0, size + 1, 6):
+                    obs.append({"name": "%s/%s#%d-lateslice/%d" % (kind, sn, i, lo), "fn": "ob_edit",
+                                "P": dict(pp, kind=kind, alo=lo, ahi=lo + 6, xs=[late]), "timeout": T})
         # marked text (one and two marks) into a document that has a mark-free code block
         for (sn, i) in [("list", 4)]:
             pp = {"schema": sn, "doc": i}
